@@ -4,9 +4,10 @@ to compile and to pass goyang's own suite). Applied to /repo only transiently by
 import subprocess, os, sys
 R='/repo'
 P=[
-("C01","pkg/yang/types.go",'''	if root == nil {
-		return nil, fmt.Errorf("%s: unknown prefix: %s for type %s", Source(n), prefix, name)
-	}
+("C01","pkg/yang/entry.go",'''			if mod == nil {
+				e.addError(fmt.Errorf("cannot find module giving prefix %q within context entry %q", prefix, e.Path()))
+				return nil
+			}
 ''',''''''),
 ("C02","pkg/yang/lex.go","""		case ' ', '\\r', '\\n', '\\t', ';', '"', '\\'', '{', '}', eof:
 			l.emit(tUnquoted)""","""		case ' ', '\\n', '\\t', ';', '"', '\\'', '{', '}', eof:
